@@ -11,7 +11,9 @@
                  the apply point for negotiation handlers, between
                  setActiveStates and processSubscriptions for final handlers
      PApplied j  at the schedule point `tx:applied` of transition j (right
-                 after setActiveStates released activeStatesMx)
+                 after activeStatesMx is released: setActiveStates and
+                 ProcessStateCtx have run under it, the collected contexts are
+                 canceled right afterwards)
      PSubs j     at the schedule point `tx:subs` of transition j (right before
                  processSubscriptions)
 
@@ -86,15 +88,15 @@ Definition tx_events (sc : schema) (topo : list nat) (ops : list sched_op) (hl :
   let act := activated sc r in
   let deact := deactivated sc topo r in
   let vapp := {| v_active := tx_target r; v_clock := tx_after r; v_qtick := qt; v_running := true;
-                 v_window := true; v_applied := true |} in
+                 v_window := false; v_applied := true |} in
   let vsub := {| v_active := if tx_processed r then tx_target r else odd_states (tx_mach_after r);
                  v_clock := tx_mach_after r; v_qtick := qt;
                  v_running := true; v_window := false; v_applied := true |} in
   let vend := {| v_active := odd_states (tx_mach_after r); v_clock := tx_mach_after r;
                  v_qtick := qt; v_running := true; v_window := false; v_applied := false |} in
   hops false
-  ++ ops_at ops (PApplied j) vapp
   ++ (if tx_applied r then [EStateCtx act deact] else [])
+  ++ ops_at ops (PApplied j) vapp
   ++ hops true
   ++ ops_at ops (PSubs j) vsub
   ++ (if tx_processed r then [EProcess act deact (tx_before r) (tx_mach_after r) qt]
